@@ -123,6 +123,8 @@ def gen_source(rng):
     else:
         spec["prov"] = rng.choice(["ugrid_mem", "ugrid_mem_chunked", "ugrid_file", "esmf_mem"])
         spec["dialect"] = {"lon360": rng.random() < 0.5, "start": rng.choice([0, 1]), "chunks": rng.random() < 0.5}
+        if spec["prov"] != "esmf_mem":
+            spec["dialect"].update(as_coords=rng.random() < 0.35, ugrid_edges=rng.random() < 0.3, edge_flip=rng.random() < 0.5)
     if spec.get("kind") == "mesh" and rng.random() < 0.12:
         spec["reencode"] = rng.sample(["face_edge_connectivity", "face_lon", "edge_lon", "node_x", "face_x"], rng.randint(0, 3))
     if spec.get("kind") == "mesh" and rng.random() < 0.12:
